@@ -221,7 +221,9 @@ type kernelCase struct {
 	cc     *vlib.ChildCase
 	strace bool
 	lethal bool // last probe expected lethal
-	desc   string
+	// expectRefusal: the kernel must refuse this load (thread-sync next to a divergent filter); an error is then the right answer
+	expectRefusal bool
+	desc          string
 }
 
 type kernelStats struct {
@@ -301,6 +303,10 @@ func judgeEnforce(run *vlib.Run, o *vlib.Oracles, kc *kernelCase, st *kernelStat
 			run.Violation("flags-differ-at-syscall", fmt.Sprintf("%s: flags %#x requested, the kernel received %#x", kc.desc, kc.cc.Flags, sc.Args[1]), replay)
 			return true
 		}
+	}
+	if ok, _ := loaded["ok"].(bool); !ok && kc.expectRefusal {
+		run.Count(prefix+"thread_sync_refusals_reported_as_errors", 1)
+		return true
 	}
 	if ok, _ := loaded["ok"].(bool); !ok {
 		if !kc.strace { // look at the boundary before giving up
@@ -528,6 +534,18 @@ func c08() {
 			kc.strace = false
 			run.Count("children_with_identical_preload_on_other_thread", 1)
 		}
+		divergent := false
+		if i%13 == 9 && !kc.cc.KillThreadProbe && !kc.cc.PreloadOnOtherThread && goarch == "amd64" {
+			// another thread carries a different filter (loaded without thread-sync): a thread-sync load, with whatever other
+			// valid flag bits, must then be refused - and if it reports success it is judged like any other load
+			other := vlib.SpecOf(&seccomp.Policy{DefaultAction: vlib.RetAllow, Syscalls: []seccomp.SyscallGroup{{Names: []string{"munlockall"}, Action: vlib.RetLog}}}, "x86_64")
+			kc.cc.PreloadOnOtherThread, kc.cc.PreloadPolicy = true, &other
+			kc.cc.Flags = 1 | []uint32{0, 2, 4, 6}[(i/13)%4]
+			kc.strace = false
+			divergent = true
+			run.Count("children_with_divergent_filter_on_another_thread", 1)
+		}
+		kc.expectRefusal = divergent
 		if i%11 == 6 && !kc.cc.KillThreadProbe && !kc.cc.PreloadOnOtherThread {
 			kc.cc.StraceInject = vlib.UnamePoke(vlib.FakeKernelReleases[(i/11)%len(vlib.FakeKernelReleases)])
 			kc.strace = true
